@@ -1146,6 +1146,40 @@ Section Pipeline.
           destruct (N.leb (t_height k) lim); cbn [andb]; [|reflexivity].
           destruct (status_rejected (e (t_penalty k))); reflexivity.
   Qed.
+  Lemma pl_B u k : find_trk l u = Some k ->
+    find_trk lB u = if completes txids h rg0 k then None else Some (confirm_one txids h k).
+  Proof.
+    intros Hf. unfold lB. rewrite find_trk_filter_uuid, pl_findA, Hf.
+    unfold completed. rewrite (mem_uuid_map_filter _ _ _ k Hnd Hf). reflexivity.
+  Qed.
+
+  Lemma pl_rg u k : find_trk l u = Some k -> mem_uuid u rg = mem_uuid u rg0 && negb (memN (t_penalty k) txids).
+  Proof.
+    intros Hf. unfold rg. rewrite mem_uuid_filter. unfold conf_uuids.
+    rewrite (mem_uuid_map_filter _ _ _ k Hnd Hf). reflexivity.
+  Qed.
+
+  (* a reorged tracker not re-confirmed by this block is handed to handle_reorged_txs as it is *)
+  Lemma pl_reorged u k :
+    find_trk l u = Some k -> memN (t_penalty k) txids = false -> mem_uuid u rg0 = true ->
+    find_trk lB u = Some k /\ In u rg.
+  Proof.
+    intros Hf Em Er. destruct (find_trk_Some _ _ _ Hf) as [_ Hu]. split.
+    - rewrite (pl_B u k Hf). unfold completes, confirm_one. rewrite Hu, Em, Er. reflexivity.
+    - apply mem_uuid_In. rewrite (pl_rg u k Hf), Em, Er. reflexivity.
+  Qed.
+
+  (* an unconfirmed tracker outside the reorged set reaches rebroadcast_stale_txs as it is *)
+  Lemma pl_unconfirmed u k :
+    find_trk l u = Some k -> memN (t_penalty k) txids = false -> mem_uuid u rg0 = false -> t_conf k = false ->
+    find_trk lC u = Some k /\ mem_uuid u stale = N.leb (t_height k) lim.
+  Proof.
+    intros Hf Em Er Ec. destruct (find_trk_Some _ _ _ Hf) as [_ Hu].
+    assert (HfC : find_trk lC u = Some k).
+    { rewrite pl_findC, (pl_B u k Hf). unfold completes, confirm_one. rewrite Hu, Em, Er, Ec. cbn [negb andb option_map].
+      rewrite Hu, (pl_rg u k Hf), Er. reflexivity. }
+    split; [exact HfC|]. unfold stale. rewrite (mem_uuid_map_filter _ _ _ _ pl_ndC HfC). unfold stale_sel. rewrite Ec. reflexivity.
+  Qed.
 End Pipeline.
 
 (* the carrier's answers during the block of height h, as seen from the state before the block *)
@@ -1184,4 +1218,102 @@ Proof.
   destruct (find_trk (db_trks t) u) as [k|] eqn:Ef.
   - exact (pipeline_row (keys_of (ib_data b)) h lim (reorged t) (blk_eff sc t h) (db_trks t) Hnd Hlim S3 u k Ef).
   - exact (pipeline_none (keys_of (ib_data b)) h lim (reorged t) (blk_eff sc t h) (db_trks t) u Ef).
+Qed.
+
+Lemma carried_ext_l sc a a' b :
+  carried sc a b -> car_height a' = car_height a -> car_memo a' = car_memo a -> rpc_log a' = rpc_log a ->
+  carried sc a' b.
+Proof.
+  intros [A1 A2 A3 A4 A5 A6] Hh Hm Hl.
+  assert (He : forall x, eff_status sc a' x = eff_status sc a x) by (intros x; apply eff_status_ext; assumption).
+  constructor; rewrite ?Hh, ?Hm, ?Hl; auto.
+  - intros x. rewrite He. apply A2.
+  - intros e Hi. destruct (A6 e Hi) as [H|[H1 [H2 [H3 H4]]]]; [left; exact H|right]. rewrite He. auto.
+Qed.
+
+Lemma find_app_filter_uuid (D : list (N * N)) l u :
+  find_app (filter (fun a => negb (mem_uuid (app_uuid a) D)) l) u = if mem_uuid u D then None else find_app l u.
+Proof.
+  unfold find_app. induction l as [|k l IH]; [destruct (mem_uuid u D); reflexivity|]. cbn [filter find].
+  destruct (uuid_eqb (app_uuid k) u) eqn:E.
+  - apply uuid_eqb_eq in E. rewrite E. destruct (mem_uuid u D) eqn:Em; cbn [negb]; [exact IH|].
+    cbn [find]. rewrite E, uuid_eqb_refl. reflexivity.
+  - destruct (mem_uuid (app_uuid k) D); cbn [negb]; [exact IH|]. cbn [find]. rewrite E. exact IH.
+Qed.
+
+(* everything the responder's block_connected does, in terms of the state before the block *)
+Record rbc_facts (sc : script) (t : tower) (b : iblock N) (h : N) (t' : tower) (lim : N) (t5 : tower) : Prop := {
+  rf_lim : u32_sub h RETRY = Some lim;
+  rf_lim_lt : lim < h;
+  rf_no_underflow : existsb (underflows (keys_of (ib_data b)) h (reorged t)) (db_trks t) = false;
+  rf_mem : forall u, aget (gk_users t') u =
+                     option_map (credit (refund_total (db_apps t) (completed_list (keys_of (ib_data b)) h t) u))
+                                (aget (gk_users t) u);
+  rf_db : forall u, aget (db_users t') u =
+                    option_map (credit (refund_total (db_apps t) (completed_list (keys_of (ib_data b)) h t) u))
+                               (aget (db_users t) u);
+  rf_completed_apps : forall u, In u (completed_list (keys_of (ib_data b)) h t) ->
+                                (exists a, find_app (db_apps t) u = Some a) /\ find_app (db_apps t') u = None;
+  rf_rows : forall u, find_trk (db_trks t') u =
+                      match find_trk (db_trks t) u with
+                      | None => None
+                      | Some k => fate (keys_of (ib_data b)) h lim (reorged t) (blk_eff sc t h) k
+                      end;
+  rf_log : rpc_log t' = rpc_log t5;
+  rf_carried : carried sc (set_car_height t h) t5;
+  rf_cov_reorg : forall u k, find_trk (db_trks t) u = Some k -> memN (t_penalty k) (keys_of (ib_data b)) = false ->
+                             In u (reorged t) -> reorg_covered (blk_eff sc t h) t5 k;
+  rf_cov_stale : forall u k, find_trk (db_trks t) u = Some k -> memN (t_penalty k) (keys_of (ib_data b)) = false ->
+                             ~ In u (reorged t) -> t_conf k = false -> t_height k <= lim ->
+                             aget (car_memo t5) (t_penalty k) = Some (blk_eff sc t h (t_penalty k));
+  rf_reorged : reorged t' = [];
+  rf_memo : car_memo t' = [];
+  rf_car_height : car_height t' = h;
+  rf_heights : gk_height t' = gk_height t /\ w_height t' = w_height t /\ w_cache t' = w_cache t /\ cfg t' = cfg t;
+  rf_index : ti_update (r_index t) b = Some (r_index t')
+}.
+
+Theorem r_block_connected_facts le sc t b h t' :
+  Inv t -> r_block_connected le sc t b h = Ok tt t' -> exists lim t5, rbc_facts sc t b h t' lim t5.
+Proof.
+  intros HI E. destruct (r_block_connected_rows le sc t b h t' HI E) as [lim0 [Hl0 Hrows]].
+  destruct (r_block_connected_stages le sc t b h t' HI E) as [idx [lim [tR [t3 [t5 S]]]]].
+  destruct S as [S1 S2 S3 S4 S5 [m [l S6]] S7 S8 S9 S10].
+  assert (lim0 = lim) by congruence. subst lim0.
+  assert (HI2 : Inv (cc_result (keys_of (ib_data b)) h (set_r_index (set_car_height t h) idx))).
+  { assert (HI1 : Inv (set_r_index (set_car_height t h) idx)) by (eapply inv_frame; [|exact HI]; repeat split).
+    pose proof (check_conf_loop_pres Inv (sb_wr _ (sa_block _ inv_stable)) le (keys_of (ib_data b)) h
+                  (db_trks t) (set_r_index (set_car_height t h) idx) [] HI1) as Hp.
+    pose proof (check_conf_loop_spec le (keys_of (ib_data b)) h _ [] HI1) as Hcc.
+    change (reorged (set_r_index (set_car_height t h) idx)) with (reorged t) in Hcc.
+    change (db_trks (set_r_index (set_car_height t h) idx)) with (db_trks t) in Hcc.
+    rewrite S3 in Hcc. rewrite Hcc in Hp. exact Hp. }
+  destruct (refund_loop_spec _ _ _ HI2 S4) as [[g [d EtR]] [Hg [Hd Hex]]].
+  destruct (retry_lim h lim S2) as [Hlim _].
+  pose proof (inv_trks_nodup t HI) as Hnd.
+  exists lim, t5. subst tR. subst t3.
+  assert (Hlog : rpc_log t' = rpc_log t5) by (rewrite S10; reflexivity).
+  assert (Hgk : gk_users t' = g) by (rewrite S10, S6; reflexivity).
+  assert (Hdb : db_users t' = d) by (rewrite S10, S6; reflexivity).
+  constructor; try assumption.
+  - intros u. rewrite Hgk. exact (Hg u).
+  - intros u. rewrite Hdb. exact (Hd u).
+  - intros u Hu. split; [exact (Hex u Hu)|]. rewrite S10, S6.
+    unfold db_delete_apps, with_carrier, with_users.
+    cbn [db_apps set_db_apps set_db_trks set_car_memo set_rpc_log set_reorged set_db_users set_gk_users].
+    rewrite !find_app_filter_uuid. apply mem_uuid_In in Hu. rewrite Hu.
+    match goal with |- (if ?c then _ else _) = _ => destruct c end; reflexivity.
+  - eapply carried_ext_l; [exact S7|reflexivity..].
+  - intros u k Hf Em Hu. apply mem_uuid_In in Hu.
+    destruct (pl_reorged (keys_of (ib_data b)) h (reorged t) (db_trks t) Hnd u k Hf Em Hu) as [HfB Hrg].
+    exact (S8 u k Hrg HfB).
+  - intros u k Hf Em Hu Hc Hh. apply mem_uuid_false in Hu.
+    destruct (pl_unconfirmed (keys_of (ib_data b)) h lim (reorged t) (blk_eff sc t h) (db_trks t) Hnd u k Hf Em Hu Hc) as [HfC Hst].
+    apply N.leb_le in Hh. rewrite Hh in Hst. apply mem_uuid_In in Hst.
+    exact (S9 u k Hst HfC).
+  - rewrite S10, S6. reflexivity.
+  - rewrite S10. reflexivity.
+  - rewrite S10, S6. reflexivity.
+  - rewrite S10, S6. repeat split.
+  - rewrite S10, S6. exact S1.
 Qed.
